@@ -202,6 +202,20 @@ CLAIMED = {
              "pre-computable out-states draw no random numbers.",
         technique="Lean 4 stage-machine model (in progress) + schedule-controlled differential runs against the single-process mediator",
         ref="§5 C20"),
+    "C02": dict(
+        text="Lean 4 theorems over R: 'accumulated uphill energy' is the positive variation uphill f 0 d; inverse power (repulsive/attractive): "
+             "a returned finite d is >= 0 and uphill = budget, infinite iff the total climb is below (<= / <, as the code compares) the "
+             "budget, totality of sqrt/denominators; hard sphere: least root of the contact equation, scaling with speed; hard dipole; the "
+             "C Coulomb-bound routine with whole-box laps (floor/fmod split exact, all six remainder branches invert the periodic "
+             "minimum-image energy); the Mexican-hat case tree generic in the radial potential, instantiated for Lennard-Jones and even "
+             "power; cell bound. Correspondence: native-Float model (CPython pow/sum semantics, exceptions as outcomes) vs real classes and "
+             "freshly compiled C, by outcome class and 1e-9; oracle independent of the code's formulas: exact positive variation from the "
+             "break points of an independently written energy, totality/sign down to denormal budgets, exact rational contact equations.",
+        note="Binary64 totality is explored, not proved (theorems are over R; pow/sqrt are libm). Ten known findings: arithmetic failures "
+             "(ZeroDivisionError head-on, ValueError/TypeError/nan within rounding of a turning point) and two wrong values (swallowed nested "
+             "ValueError in the Mexican-hat tree; floor/fmod disagreement in the C routine).",
+        technique="Lean 4 proof (real analysis) over a hand-written model + tolerance-based differential correspondence + break-point oracle",
+        ref="§5 C02"),
 }
 
 PENDING_REASON = "check not built yet in this session (work in progress; see DESIGN.md §9 for the order)"
